@@ -1,5 +1,5 @@
 """C02 -- scheduler core (work in progress: metadata filled in below)."""
-from props.common import other_tasks, contract_tasks, lemma_tasks, TRUSTED_CORE
+from props.common import other_tasks, contract_tasks, lemma_tasks, TRUSTED_CORE, SCHED_ASSUMPTIONS
 
 PROPERTY = "C02"
 
@@ -11,11 +11,11 @@ def tasks(tier):
 
 
 TRUSTED_BASE = TRUSTED_CORE
-ASSUMPTIONS = []
-NOT_COVERED = []
-LEVEL_TEXT = 'Exact step set: demands are justified at every schedule_step call (only documented reasons), dedup and strict increase are invariant clauses (I5, K), range 0 <= t < until is asserted at BEGIN, nothing demanded before until is left at normal termination (postcondition of sim_process).'
+ASSUMPTIONS = SCHED_ASSUMPTIONS
+NOT_COVERED = ["'exactly once' is proved as: a demanded time is in next_steps at most once (I5), is removed only by the step at that time, and none before until is left at normal termination; that the run terminates is the liveness half of C05 (not decided)", 'initial events (World.set_initial_event) and time 0 for time-based simulators are set up by SimRunner.__init__ / set_initial_event, which are not under contract (straight-line heappush)']
+LEVEL_TEXT = 'Exact step set: demands are justified at every schedule_step call (only the documented reasons), dedup and strict increase are invariant clauses (I5, K), range 0 <= t < until is asserted at BEGIN, nothing demanded before until is left at normal termination (postcondition of sim_process).'
 DESIGN_REF = "DESIGN.md section 8 (C02)"
-LEVEL_NOTE = 'Trusted: pyvc encoder (Python semantics of DESIGN 3.4), the rely/guarantee meta-theorem for cooperative asyncio tasks (DESIGN 6, not mechanised), assumed contracts of asyncio/heapq, time/delay algebra axioms (each with provenance to a C08 obligation), static connection-table facts static_ok/trig_static (assumed here; established by the scenario.py contracts where built), non-real-time mode, z3/cvc5.'
-TECHNIQUE = "contract-based deductive verification (AST->z3 VCs on the real functions, global invariant, rely/guarantee at awaits)"
+LEVEL_NOTE = 'Proved for any number of simulators, any topology, any reply values and every interleaving, under the listed assumptions (evidence: assumptions, coverage.trusted_base). Trusted: pyvc encoder, the rely/guarantee meta-theorem, assumed contracts of asyncio/heapq, the time/delay algebra axioms (C08 provenance), static connection-table facts, z3/cvc5.'
+TECHNIQUE = 'contract-based deductive verification (AST->z3 VCs on the real functions, global invariant, rely/guarantee at awaits)'
 CLAIMED = True
-NA_REASON = "check under construction in this round"
+NA_REASON = ""
